@@ -1,5 +1,7 @@
 #!/bin/sh
 # tools/harvest.sh X  — copy agent X's new files from /tmp/w_X/verif into /verif (never overwrites shared files)
+# NOTE: uses rsync --update semantics only for files the agent owns; if an agent refreshed its copy from /verif,
+# restore foreign files afterwards with `git checkout` (see git status).
 set -e
 X=$1; SRC=/tmp/w_$X/verif; DST=/verif
 [ -d "$SRC" ] || { echo "no $SRC"; exit 1; }
